@@ -1,5 +1,6 @@
 import Hive.Proofs.DListObs
 import Hive.Proofs.DListCode
+import Hive.Proofs.DListConc
 import Hive.Gen.C10_Skel
 /-!
 # C10 — `ds.List` behaves exactly like a reference doubly-linked list (Go's `container/list`)
@@ -399,5 +400,159 @@ theorem C10_skeleton_type_shapes :
   decide
 
 end skeletons
+
+/-! ## the thread-safe flavour under concurrent use
+
+`threadSafeList` puts one `sync.RWMutex` in front of the inner list (skeleton obligations above: every method is
+`Lock|RLock; defer Unlock|RUnlock;` exactly one inner call).  `TS.tsSys` (Hive/Model/DListConc.lean) is that protocol
+for **any** number of goroutines running **any** sequences of calls; the inner call is split into a first read and a
+commit computed from that read (writers) / a second read from which the result is returned (readers), so that the
+theorem below really rests on the mutual exclusion the mutex provides. -/
+section concurrent
+open Hive.Conc TS
+
+/-- **Every call through the wrapper takes effect at one point between its invocation and its response, and the
+effects in that order are a sequential history of the list** — for every thread pool, every program, every schedule:
+in every reachable configuration
+* the linearization log, read as a sequential run of the object from its initial state, returns exactly the logged
+  results and ends in the current object (`Replays`), and it is sorted by stamp;
+* every completed call of every goroutine — with the result *it returned to its caller* — has its entry in the log,
+  stamped strictly after its invocation and strictly before its response (so the order of the log respects the
+  real-time order of non-overlapping calls);
+* at most one goroutine is inside a write section, and then none is inside a read section. -/
+theorem C10_ts_linearizable {σ O R : Type} (B : Obj σ O R) (x0 : σ) (progs : List (List O))
+    (c : Cfg (Sh σ O R) (Th σ O R)) (hr : Reach (tsSys B) (Sh.start x0, progs.map Th.start) c) :
+    Replays B x0 c.1.log c.1.obj ∧
+    c.1.log.Pairwise (fun a b => a.stamp < b.stamp) ∧
+    (∀ t ∈ c.2, ∀ r ∈ t.rets, (⟨r.op, r.res, r.lin⟩ : LE O R) ∈ c.1.log ∧ r.inv < r.lin ∧ r.lin < r.ret) ∧
+    c.2.countP (fun t => inW t.pc) ≤ 1 ∧
+    (0 < c.2.countP (fun t => inW t.pc) → c.2.countP (fun t => inR t.pc) = 0) := by
+  have h := tinv_reach B x0 progs hr
+  refine ⟨h.lin, h.logOk.1, ?_, ?_, ?_⟩
+  · intro t ht r hr'
+    obtain ⟨a, b, c', _⟩ := (h.good t ht).2 r hr'
+    exact ⟨a, b, c'⟩
+  · rw [← h.exclW]; split <;> omega
+  · intro hpos
+    rw [← h.cntR]
+    apply h.excl
+    have := h.exclW
+    cases hw : c.1.rw.writer with
+    | true => rfl
+    | false => rw [hw] at this; simp at this; omega
+
+/-- The sequential meaning of a call on the list object: a mutating method is the pointer-level model's `step` (=
+the translated code, `C10_code_is_model`), an observer leaves the list alone and reads `Len` / the forward walk /
+the backward walk / `Front` / `Back`. -/
+theorem C10_ts_list_object (s : St) :
+    (∀ op, listObj.seq s (.wr op) = ((step s op).1, .out (step s op).2)) ∧
+    (∀ l, listObj.seq s (.len l) = (s, .n (s.len l))) ∧
+    (∀ l, listObj.seq s (.vals l) = (s, .l (values s l))) ∧
+    (∀ l, listObj.seq s (.rvals l) = (s, .l (valuesRev s l))) ∧
+    (∀ l, listObj.seq s (.front l) = (s, .e (front s l))) ∧
+    (∀ l, listObj.seq s (.back l) = (s, .e (back s l))) :=
+  ⟨fun _ => rfl, fun _ => rfl, fun _ => rfl, fun _ => rfl, fun _ => rfl, fun _ => rfl⟩
+
+/-- the mutating operations of a log, in log order -/
+def mutOps : List (LE LOp LOut) → List Op
+  | [] => []
+  | e :: rest => match e.op with
+    | .wr op => op :: mutOps rest
+    | _ => mutOps rest
+
+theorem replays_run (log : List (LE LOp LOut)) (x y : St) (h : Replays listObj x log y) :
+    y = (run x (mutOps log)).1 := by
+  induction log generalizing x with
+  | nil => simp only [Replays] at h; subst h; rfl
+  | cons e rest ih =>
+    simp only [Replays] at h
+    have := ih _ h.2
+    cases hop : e.op with
+    | wr op =>
+      rw [hop] at this
+      simp only [mutOps, hop, run]
+      exact this
+    | len l => rw [hop] at this; simp only [mutOps, hop]; exact this
+    | vals l => rw [hop] at this; simp only [mutOps, hop]; exact this
+    | rvals l => rw [hop] at this; simp only [mutOps, hop]; exact this
+    | front l => rw [hop] at this; simp only [mutOps, hop]; exact this
+    | back l => rw [hop] at this; simp only [mutOps, hop]; exact this
+
+/-- **The thread-safe list under any concurrent use is a sequential history of the list**: whatever goroutines call
+whatever methods, in every reachable configuration the list is the state the sequential model reaches by executing
+the mutating calls in linearization order; if that history never reuses a handle from before an `Init` (`okRun`) the
+heap is a well-formed pair of rings and the list is what the `container/list` specification gives for that history. -/
+theorem C10_ts_list_is_sequential (progs : List (List LOp)) (c : Cfg (Sh St LOp LOut) (Th St LOp LOut))
+    (hr : Reach (tsSys listObj) (Sh.start init, progs.map Th.start) c) :
+    c.1.obj = (run init (mutOps c.1.log)).1 ∧
+    (okRun sinit (mutOps c.1.log) → WF c.1.obj ∧ abs c.1.obj = (srun sinit (mutOps c.1.log)).1) := by
+  have h := (C10_ts_linearizable listObj init progs c hr).1
+  have hrun := replays_run _ _ _ h
+  refine ⟨hrun, fun hok => ?_⟩
+  obtain ⟨_, h2, h3⟩ := C10_refines_run (mutOps c.1.log) hok
+  rw [hrun]
+  exact ⟨h3, h2⟩
+
+/-- The lock each call is modelled under is the lock the wrapper method of the working tree takes (regenerated
+skeletons): write lock for the twelve mutating methods, read lock for the eight observers. -/
+theorem C10_ts_lock_kinds :
+    let w := some (lockWord (listObj.kind (.wr (.init false))))
+    let r := some (lockWord (listObj.kind (.len false)))
+    (∀ op, listObj.kind (.wr op) = .w) ∧
+    listObj.kind (.vals false) = .r ∧ listObj.kind (.rvals false) = .r ∧ listObj.kind (.front false) = .r ∧
+    listObj.kind (.back false) = .r ∧
+    Hive.Gen.C10Skel.skel_threadSafeList_Init.head? = w ∧ Hive.Gen.C10Skel.skel_threadSafeList_PushFront.head? = w ∧
+    Hive.Gen.C10Skel.skel_threadSafeList_PushBack.head? = w ∧ Hive.Gen.C10Skel.skel_threadSafeList_Remove.head? = w ∧
+    Hive.Gen.C10Skel.skel_threadSafeList_InsertBefore.head? = w ∧ Hive.Gen.C10Skel.skel_threadSafeList_InsertAfter.head? = w ∧
+    Hive.Gen.C10Skel.skel_threadSafeList_MoveToFront.head? = w ∧ Hive.Gen.C10Skel.skel_threadSafeList_MoveToBack.head? = w ∧
+    Hive.Gen.C10Skel.skel_threadSafeList_MoveBefore.head? = w ∧ Hive.Gen.C10Skel.skel_threadSafeList_MoveAfter.head? = w ∧
+    Hive.Gen.C10Skel.skel_threadSafeList_PushBackList.head? = w ∧ Hive.Gen.C10Skel.skel_threadSafeList_PushFrontList.head? = w ∧
+    Hive.Gen.C10Skel.skel_threadSafeList_Len.head? = r ∧ Hive.Gen.C10Skel.skel_threadSafeList_Front.head? = r ∧
+    Hive.Gen.C10Skel.skel_threadSafeList_Back.head? = r ∧ Hive.Gen.C10Skel.skel_threadSafeList_Values.head? = r ∧
+    Hive.Gen.C10Skel.skel_threadSafeList_Range.head? = r ∧ Hive.Gen.C10Skel.skel_threadSafeList_ForEach.head? = r ∧
+    Hive.Gen.C10Skel.skel_threadSafeList_RangeReverse.head? = r ∧ Hive.Gen.C10Skel.skel_threadSafeList_ForEachReverse.head? = r := by
+  refine ⟨fun _ => rfl, rfl, rfl, rfl, rfl, ?_⟩
+  decide
+
+/-- **The checker the driver runs on recorded histories is sound**: if it accepts the `lin` line of a concurrent run,
+there is a linearization — a permutation of the recorded calls that the `container/list` specification (`sstep`, from
+the abstraction of the state the setup lines reached) executes with exactly the recorded results, and that never
+places a call before one that had already returned when it was invoked. -/
+theorem C10_lincheck_sound (s : St) (cs : List CCall) (h : linearizable (absC s) cs = true) :
+    ∃ order, LinWitness [] (abs s) cs order := linearizable_sound (abs s) cs h
+
+/-- the abstract state after the setup `pb A 1; pb A 2; pb A 3; pb B 11; pb B 12` of a forced schedule -/
+def linDemoState : SSt :=
+  (srun sinit [.pushBack false 1, .pushBack false 2, .pushBack false 3, .pushBack true 11, .pushBack true 12]).1
+
+/-- The checker on two recorded shapes: a queued reader that sees the list after the **whole** `PushBackList` is
+accepted (as is one that sees the list before it); a reader that sees the first value of the block only — what a
+`PushBackList` that locks per element delivers (seeded change C10-r6-3) — has no linearization. `decide` on concrete
+histories: tests of the checker, not the general claim. -/
+theorem C10_lincheck_example :
+    linearizable linDemoState
+      [⟨1, 4, .vals false, .l [1, 2, 3]⟩, ⟨2, 6, .mut (.pushBackList false true), .ok⟩,
+       ⟨3, 7, .vals false, .l [1, 2, 3, 11, 12]⟩, ⟨5, 8, .mut (.pushBack false 99), .h 100000⟩,
+       ⟨9, 10, .vals false, .l [1, 2, 3, 11, 12, 99]⟩, ⟨11, 12, .mut (.remove false 100000), .v 99⟩,
+       ⟨13, 14, .rvals false, .l [12, 11, 3, 2, 1]⟩] = true ∧
+    linearizable linDemoState
+      [⟨1, 4, .vals false, .l [1, 2, 3]⟩, ⟨2, 6, .mut (.pushBackList false true), .ok⟩,
+       ⟨3, 5, .vals false, .l [1, 2, 3, 11]⟩, ⟨7, 8, .vals false, .l [1, 2, 3, 11, 12]⟩] = false := by
+  decide
+
+/-- The hypothesis of `C10_ts_linearizable` / `C10_ts_list_is_sequential` is satisfiable by a configuration in which
+calls really overlap: three goroutines (`PushBack 7; Len`, `Values; PushFront 8`, `PushBackList A A`) under a schedule
+in which the reader is inside its section while both writers have announced `Lock()`. -/
+example : Reach (tsSys listObj)
+    (Sh.start init, [[LOp.wr (.pushBack false 7), .len false], [.vals false, .wr (.pushFront false 8)],
+      [.wr (.pushBackList false false)]].map Th.start)
+    (runSched (tsSys listObj)
+      (Sh.start init, [[LOp.wr (.pushBack false 7), .len false], [.vals false, .wr (.pushFront false 8)],
+        [.wr (.pushBackList false false)]].map Th.start)
+      [(1, 0), (0, 0), (2, 0), (1, 0), (1, 0), (1, 0), (0, 0), (0, 0), (0, 0), (0, 0), (2, 0), (2, 0), (2, 0), (2, 0),
+       (1, 0), (1, 0), (0, 0)]) :=
+  runSched_reach _ _ _
+
+end concurrent
 
 end Hive.DList
